@@ -45,9 +45,15 @@ type c19env struct {
 	st        *hx.Stats
 }
 
+// the first nSafeArgs entries convert without throwing
+const nSafeArgs = 25
+
 var argSources = []string{
 	`"abc"`, `""`, `"%s"`, `"é€😀"`, `"with space"`, `"100%"`, `1`, `-0`, `NaN`, `1e21`, `1.5`, `-Infinity`, `42`,
 	`true`, `false`, `null`, `undefined`, `[1,2]`, `[]`, `({"a":1})`, `({a:[1,{b:"x"}]})`, `"5"`, `" 7 "`, `[3]`, `({})`,
+	// conversions that throw: a call that needs one of them throws, and the next call must not be affected
+	`(function(){var o={};o.self=o;return o})()`, `Symbol("s")`, `({toString:function(){throw new Error("ts")}})`, `10n`,
+	`({toJSON:function(){throw new Error("tj")}, toString:function(){return "obj"}})`,
 }
 
 func newC19(seed uint64) *c19env {
@@ -75,16 +81,25 @@ func newC19(seed uint64) *c19env {
 	return e
 }
 
-// renderings computed by calling goja directly (not through the library)
+// renderings computed by calling goja directly (not through the library); "!" = this conversion throws
 func (e *c19env) renderings(v goja.Value) (s, d, j string) {
-	s = v.String()
-	d = v.ToNumber().String()
-	r, err := e.stringify(e.jsonObj, v)
-	if err != nil {
-		j = "<stringify threw>"
-	} else {
-		j = r.String()
+	try := func(f func() string) (out string) {
+		defer func() {
+			if r := recover(); r != nil {
+				out = "!"
+			}
+		}()
+		return hs(f())
 	}
+	s = try(func() string { return v.String() })
+	d = try(func() string { return v.ToNumber().String() })
+	j = try(func() string {
+		r, err := e.stringify(e.jsonObj, v)
+		if err != nil {
+			panic(err)
+		}
+		return r.String()
+	})
 	return
 }
 
@@ -115,7 +130,7 @@ func (e *c19env) argToks(idx []int) []string {
 	var t []string
 	for _, i := range idx {
 		s, d, j := e.renderings(e.pool[i])
-		t = append(t, hs(s), hs(d), hs(j))
+		t = append(t, s, d, j)
 	}
 	return t
 }
@@ -197,12 +212,13 @@ func (e *c19env) genCON() []conCall {
 			if e.rng.Chance(70) {
 				cc.srcs = append(cc.srcs, str(fmt.Sprintf("%q", e.genFormat())))
 			} else {
-				cc.srcs = append(cc.srcs, str(argSources[e.rng.Intn(len(argSources))]))
+				cc.srcs = append(cc.srcs, str(argSources[e.rng.Intn(nSafeArgs)]))
 			}
 		}
 		if len(cc.srcs) > 0 {
+			// console histories use the values whose conversions cannot throw
 			for _, i := range e.genArgs(3) {
-				cc.srcs = append(cc.srcs, str(argSources[i]))
+				cc.srcs = append(cc.srcs, str(argSources[i%nSafeArgs]))
 			}
 		}
 		calls = append(calls, cc)
@@ -245,7 +261,7 @@ func (e *c19env) runCON(w *bufio.Writer, calls []conCall) {
 		toks = append(toks, cc.method, ftok, fmt.Sprint(nargs))
 		for _, v := range vals[min(1, len(vals)):] {
 			s, d, j := e.renderings(v)
-			toks = append(toks, hs(s), hs(d), hs(j))
+			toks = append(toks, s, d, j)
 		}
 		fn, ok := goja.AssertFunction(e.cons.Get(cc.method))
 		if !ok {
@@ -341,7 +357,7 @@ func (e *c19env) corpusLine(w *bufio.Writer, line string) {
 			toks = append(toks, fmt.Sprint(len(srcs)-1))
 		} else {
 			s, d, j := e.renderings(v)
-			toks = append(toks, hs(s), hs(d), hs(j))
+			toks = append(toks, s, d, j)
 		}
 	}
 	e.st.Hit("source:corpus")
